@@ -10,7 +10,7 @@ RULE = (
     "exhaustive: EmberStatus(v) and EzspStatus(v) for every v in 0..255, built both by "
     "constructor and by deserialising one byte; every defined sl_Status; generated "
     "undefined 32-bit sl_Status values; all 256 values of the four other types that response schemas deliver in a field "
-    "named `status` (uint8_t, EmberNetworkStatus, EmberKeyStatus, EmberDeviceUpdate). A case is (family, value, construction); "
+    "named `status` (uint8_t, EmberNetworkStatus, EmberKeyStatus, EmberDeviceUpdate); the steering codes fed as reply frames to the real handler of every version for network init / unicast / multicast / broadcast (what the caller of the helper receives). A case is (family, value, construction); "
     "non-trivial = value is not the family's success code (the conversion has to decide "
     "something); distinct by (family, value)."
 )
@@ -106,7 +106,68 @@ def check_foreign(plan) -> Result:
     return r
 
 
+WIRE_OPS = ["init", "unicast", "multicast", "broadcast"]
+# numeric reply status -> unified numeric status the helper must hand to its caller (None: must be in the retry set)
+WIRE_LEGACY = {0x00: 0x00, 0x93: 0x17, 0x72: None, 0xA1: None, 0x18: None, 0x70: "not-ok", 0x66: "not-ok"}
+WIRE_UNIFIED = {0x00: 0x00, 0x17: 0x17, 0x0C03: 0x0C03, 0x34: 0x34, 0x19: 0x19, 0x02: 0x02}
+
+
+def check_wire(plan) -> Result:
+    """The steering codes as they come off the wire: a reply frame carrying the numeric status is fed to the real protocol
+    handler of every version and the handler-level helper (what the application branches on) must return the unified
+    counterpart.  plan = ["wire", version, op, code]"""
+    import asyncio
+
+    import bellows.ezsp as e
+    import bellows.types as t
+    from vlib import refezsp, vloop
+
+    _, v, op, code = plan
+    r = Result(nontrivial=True, classes=["wire-path", f"v{v}"], key=plan)
+
+    async def body(loop):
+        cls = e.EZSP._BY_VERSION[v]
+        ezsp = e.EZSP({"path": "/dev/null"})
+
+        class Gw:
+            async def send_data(self_, data):
+                p = refezsp.parse(v, bytes(data))
+                seq, fid = p[0], p[2]
+                status = bytes([code]) if v < 14 else int(code).to_bytes(4, "little")
+                tail = b"" if op == "init" else b"\x2a"
+                loop.call_soon(ezsp.frame_received, refezsp.header(v, seq, fid, refezsp.RESPONSE) + status + tail)
+
+        ezsp._gw = Gw()
+        h = cls(ezsp.handle_callback, ezsp._gw)
+        ezsp._protocol, ezsp._ezsp_version = h, v
+        ezsp.start_ezsp()
+        aps = t.EmberApsFrame(profileId=260, clusterId=6, sourceEndpoint=1, destinationEndpoint=1, options=0, groupId=0, sequence=5)
+        if op == "init":
+            return await asyncio.wait_for(ezsp.initialize_network(), 30)
+        if op == "unicast":
+            return (await asyncio.wait_for(ezsp.send_unicast(nwk=t.NWK(0x1234), aps_frame=aps, message_tag=7, data=b"\x01"), 30))[0]
+        if op == "multicast":
+            return (await asyncio.wait_for(ezsp.send_multicast(aps_frame=aps, radius=0, non_member_radius=3, message_tag=7, data=b"\x01"), 30))[0]
+        return (await asyncio.wait_for(ezsp.send_broadcast(address=t.BroadcastAddress(0xFFFD), aps_frame=aps, radius=0, message_tag=7,
+                                                           aps_sequence=5, data=b"\x01"), 30))[0]
+
+    try:
+        out = vloop.run_case(body, horizon=1e6)
+    except Exception as ex:
+        r.bad(f"C18:wire-path-raises:{op}:{type(ex).__name__}", f"{plan}: {ex!r}")
+        return r
+    want = (WIRE_LEGACY if v < 14 else WIRE_UNIFIED)[code]
+    got = int(out)
+    ok = (got in RETRY_SET) if want is None else (got != 0) if want == "not-ok" else (got == want)
+    if not ok:
+        r.bad(f"C18:wire-path:{op}:0x{code:02X}", f"v{v} {op}: reply status 0x{code:X} reached the caller as {out!r}, expected "
+              f"{'one of the retry statuses' if want is None else want if isinstance(want, str) else hex(want)}")
+    return r
+
+
 def replay(plan) -> Result:
+    if plan and plan[0] == "wire":
+        return check_wire(plan)
     if plan and plan[0] == "history":
         return check_history(plan)
     if plan and plan[0] == "foreign":
@@ -158,6 +219,14 @@ def run(ctx):
                         res.bad(f"C18:answer-depends-on-history:{family}:0x{v:02X}", f"{plan}: now {out}, first time {first}")
                     ctx.check(plan, res)
     ctx.exhaustive["8-bit families"] = True
+    import bellows.ezsp as e_
+
+    for v in sorted(e_.EZSP._BY_VERSION):
+        for op in WIRE_OPS:
+            for code in (WIRE_LEGACY if v < 14 else WIRE_UNIFIED):
+                plan = ["wire", v, op, code]
+                ctx.check(plan, check_wire(plan), sample=(v == 4 and op == "init" and code == 0x93))
+    ctx.exhaustive["steering codes x {network init, unicast, multicast, broadcast} x every version, off the wire"] = True
     for tname in FOREIGN:
         for v in range(256):
             plan = ["foreign", tname, v]
